@@ -32,7 +32,14 @@
     dat <sc>:<N> <[value,...]> <rest>   archive::data<T>(xs, N) in a reflected type -> <hex> <[...]> <consumed>
     wa|ws <type> <value> <rest>  like a|s but without the domain check (16-bit count wrap)
     sl <hex> <n1,n2,...>         storage dumps, then loads(n) for each n -> <hex>|<hex>... <avail>
-    ta <type> <value> <k>        archive reader on the k-byte prefix of the encoding -> <value>@<consumed> | fault
+    ta <type> <value> <k>        archive reader on the k-byte prefix of the encoding -> <value>@<consumed>
+    tb <type> <value> <ks>       like ts for the archive stack (bounded binary_buffer_reader)
+    capt <cap> <payload hex> <type> <value> <k>   dump(buffer) + value, input cut to k bytes, load(writable_buffer of cap
+                                 bytes) + value -> "<stored bytes>" <value> <consumed>
+
+  extension 2: the archive-stack ops run `decodeB` (the reader after `fix: binary_buffer_reader never reads
+  beyond _end`); the serializer-stack ops run the cursor model `decodeC` (size_t cursor, clamp exactly as the
+  code) on inputs up to 2048 bytes and its proved equal `decodeS` beyond (List.drop per load is quadratic).
 -/
 import IgrisModel.C09.Model
 open Igris.Proto Igris.C09
@@ -197,6 +204,21 @@ def parseItems : List String → Option (List Ty × List Val)
       pure (ty :: ts, va :: vs)
   | _ => none
 
+/-- the storage reader: cursor model on small inputs (theorem storage_cursor_model: same result) -/
+def decS (ty : Ty) (input : List Byte) : Option (Val × List Byte) :=
+  if input.length ≤ 2048 then
+    match decodeC ty ⟨input, 0⟩ with
+    | some (v, s) => some (v, input.drop s.cursor)
+    | none => none
+  else decodeS ty input
+
+def decFieldsS (ts : List Ty) (input : List Byte) : Option (List Val × List Byte) :=
+  if input.length ≤ 2048 then
+    match decodeFieldsC ts ⟨input, 0⟩ with
+    | some (vs, s) => some (vs, input.drop s.cursor)
+    | none => none
+  else decodeFieldsS ts input
+
 def allScs : List Sc := [.u8, .i8, .u16, .i16, .u32, .i32, .u64, .i64, .f32, .f64]
 
 def roundTrip (enc : Ty → Val → List Byte) (dec : Ty → List Byte → Option (Val × List Byte))
@@ -237,22 +259,22 @@ def parseKs (s : String) (len : Nat) : Option (List Nat) :=
   else (s.splitOn ",").mapM String.toNat?
 
 /-- `loads(n)` for each n of the list on one storage -/
-def loadsSeq : List Nat → List Byte → List (List Byte) × List Byte
-  | [], rem => ([], rem)
-  | n :: ns, rem =>
-    match loadsS rem n with
-    | some (bs, r) => let (xs, r2) := loadsSeq ns r; (bs :: xs, r2)
-    | none => ([], rem)
+def loadsSeq : List Nat → Store → List (List Byte) × Store
+  | [], s => ([], s)
+  | n :: ns, s =>
+    match s.load n with
+    | some (bs, s1) => let (xs, s2) := loadsSeq ns s1; (bs :: xs, s2)
+    | none => ([], s)
 
 def cappedOp (kind : String) (cap : Nat) (payload : List Byte) (ty : Ty) (v : Val) (rest : List Byte) : String :=
   if !wfb ty v || payload.length > 65535 then "illformed" else
   let e := (if kind = "c" then dumpCharArr payload else dumpBuffer payload) ++ encodeA ty v
   let input := e ++ rest
-  let first := if kind = "c" then loadCharArr input cap else loadWritable input cap
+  let first := if kind = "c" then loadCharArrB input cap else loadWritableB input cap
   match first with
   | none => bytesHex e ++ " fault"
   | some (got, r) =>
-    match decodeA ty r with
+    match decodeB ty r with
     | some (v', r2) => bytesHex e ++ " \"" ++ String.join (got.map byteHex) ++ "\" " ++ showVal ty v' ++ " " ++
         toString (input.length - r2.length)
     | none => bytesHex e ++ " fault"
@@ -269,6 +291,21 @@ def stepLine (_ : Unit) (line : String) : Unit × String :=
         let pl ← parseBytes? payload
         let rs ← parseBytes? rest
         pure (cappedOp kind c pl ty va rs)
+    | ["capt", cap, payload, t, v, ks] => do
+        let ty ← parseTyStr t
+        let va ← parseValStr ty v
+        let c ← cap.toNat?
+        let pl ← parseBytes? payload
+        let k ← ks.toNat?
+        if !wfb ty va || pl.length > 65535 then pure "illformed" else
+        let input := (dumpBuffer pl ++ encodeA ty va).take k
+        match loadWritableB input c with
+        | none => pure "fault"
+        | some (got, r) =>
+          match decodeB ty r with
+          | some (v', r2) => pure ("\"" ++ String.join (got.map byteHex) ++ "\" " ++ showVal ty v' ++ " " ++
+              toString (input.length - r2.length))
+          | none => pure "fault"
     | ["bw", t, v] => do
         let ty ← parseTyStr t
         let va ← parseValStr ty v
@@ -276,8 +313,8 @@ def stepLine (_ : Unit) (line : String) : Unit × String :=
     | ["sl", h, nss] => do
         let bs ← parseBytes? h
         let ns ← (nss.splitOn ",").mapM String.toNat?
-        let (xs, r) := loadsSeq ns bs
-        pure ("|".intercalate (xs.map bytesHex) ++ " " ++ toString r.length)
+        let (xs, st) := loadsSeq ns ⟨bs, 0⟩
+        pure ("|".intercalate (xs.map bytesHex) ++ " " ++ toString st.avail)
     | ["dat", key, v, rest] => do
         match key.splitOn ":" with
         | [scn, ns] => do
@@ -288,7 +325,7 @@ def stepLine (_ : Unit) (line : String) : Unit × String :=
             if va.items.length ≠ n then none else
             let e := encodeData k va.items
             let input := e ++ rs
-            match decodeData k n input with
+            match decodeDataB k n input with
             | some (xs, r) => pure (bytesHex e ++ " " ++ showVal (.vec (.sc k)) (.list xs) ++ " " ++ toString (input.length - r.length))
             | none => pure (bytesHex e ++ " fault")
         | _ => none
@@ -299,7 +336,7 @@ def stepLine (_ : Unit) (line : String) : Unit × String :=
           let bs ← parseBytes? v
           let ev ← parseValStr ty rest
           if op = "gs" ∧ !ty.supportedS then pure "unsupported" else
-          let dec := if op = "ga" then decodeA else decodeS
+          let dec := if op = "ga" then decodeB else decS
           let enc := if op = "ga" then encodeA else encodeS
           pure (decodeShow dec ty bs ++ " " ++ bytesHex (enc ty ev))
         else
@@ -307,24 +344,33 @@ def stepLine (_ : Unit) (line : String) : Unit × String :=
         match op with
         | "wa" => do
             let rs ← parseBytes? rest
-            pure (roundTripRaw encodeA decodeA ty va rs)
+            pure (roundTripRaw encodeA decodeB ty va rs)
         | "ws" => do
             let rs ← parseBytes? rest
             if !ty.supportedS then pure "unsupported" else
-            pure (roundTripRaw encodeS decodeS ty va rs)
+            pure (roundTripRaw encodeS decS ty va rs)
         | "ta" => do
             let k ← rest.toNat?
             let input := (encodeA ty va).take k
-            match decodeA ty input with
+            match decodeB ty input with
             | some (v', r) => pure (showVal ty v' ++ "@" ++ toString (input.length - r.length))
             | none => pure "fault"
+        | "tb" => do
+            if !wfb ty va then pure "illformed" else
+            let e := encodeA ty va
+            let ks ← parseKs rest e.length
+            pure ("|".intercalate (ks.map fun k =>
+              let input := e.take k
+              match decodeB ty input with
+              | some (v', r) => showVal ty v' ++ "@" ++ toString (input.length - r.length)
+              | none => "fault"))
         | "a" => do
             let rs ← parseBytes? rest
-            pure (roundTrip encodeA decodeA ty va rs)
+            pure (roundTrip encodeA decodeB ty va rs)
         | "s" => do
             let rs ← parseBytes? rest
             if !ty.supportedS then pure "unsupported" else
-            pure (roundTrip encodeS decodeS ty va rs)
+            pure (roundTrip encodeS decS ty va rs)
         | "ts" => do
             if !ty.supportedS then pure "unsupported" else
             if !wfb ty va then pure "illformed" else
@@ -332,7 +378,7 @@ def stepLine (_ : Unit) (line : String) : Unit × String :=
             let ks ← parseKs rest e.length
             pure ("|".intercalate (ks.map fun k =>
               let input := e.take k
-              match decodeS ty input with
+              match decS ty input with
               | some (v', r) => showVal ty v' ++ "@" ++ toString (input.length - r.length)
               | none => "fault"))
         | _ => none
@@ -340,16 +386,16 @@ def stepLine (_ : Unit) (line : String) : Unit × String :=
         let ty ← parseTyStr t
         let bs ← parseBytes? h
         match op with
-        | "da" => pure (decodeShow decodeA ty bs)
-        | "ds" => if !ty.supportedS then pure "unsupported" else pure (decodeShow decodeS ty bs)
+        | "da" => pure (decodeShow decodeB ty bs)
+        | "ds" => if !ty.supportedS then pure "unsupported" else pure (decodeShow decS ty bs)
         | _ => none
     | op :: rest :: items => do
         let rs ← parseBytes? rest
         let (ts, vs) ← parseItems items
         match op with
-        | "seqa" => pure (seqTrip encodeFieldsA decodeFieldsA wfbs ts vs rs)
+        | "seqa" => pure (seqTrip encodeFieldsA decodeFieldsB wfbs ts vs rs)
         | "seqs" => if !supportedSs ts then pure "unsupported" else
-            pure (seqTrip encodeFieldsS decodeFieldsS wfbs ts vs rs)
+            pure (seqTrip encodeFieldsS decFieldsS wfbs ts vs rs)
         | _ => none
     | _ => none
   ((), r.getD "bad-op")
